@@ -77,7 +77,7 @@ CHECKS = {
    note="bounds: <=2/3 rounds, <=2 initial rows, one input column, revision 54460, method None framing; the connection copies at Write time (exact aliasing model); LZ4/ZSTD streams and write segmentation by the kernel are outside"),
  "C03": dict(
    level="model_checking",
-   text="Client.Do is executed against scripts of up to 2 (quick)/3 (thorough) server packets drawn from {Data, Totals (0/1 rows or the empty end marker), Progress, Profile, TableColumns, Log, ProfileEvents, Exception (chain depth 1..2), EndOfStream} with all field values, cells and exception codes symbolic, with and without OnResult and with a failing callback at a chosen invocation. Assertions: the callback trace (results with the bound column's contents at callback time, progress, profile, logs, profile events) equals the projection of the script in order; Do returns nil iff the script ended with EndOfStream and no callback failed (incl. the no-OnResult single-block rule); an exception is recovered by errors.As with code/name/message/stack/chain and every code of the chain matches errors.Is.",
+   text="Client.Do is executed against scripts of up to 2 (quick)/3 (thorough) server packets drawn from {Data, Totals (0/1 rows or the empty end marker), Progress, Profile, TableColumns, Log, ProfileEvents, Exception (chain depth 1..3 quick / 1..4 thorough), EndOfStream} with all field values, cells and exception codes symbolic, with and without OnResult and with a failing callback at a chosen invocation. Assertions: the callback trace (results with the bound column's contents at callback time, progress, profile, logs, profile events) equals the projection of the script in order; Do returns nil iff the script ended with EndOfStream and no callback failed (incl. the no-OnResult single-block rule); an exception is recovered by errors.As with code/name/message/stack/chain and every code of the chain matches errors.Is.",
    ref="DESIGN.md §4 C03",
    note="bounds: <=2/3 packets, one result column (UInt64), 1-row telemetry blocks, integer fields 7 bit, revisions {54460, 54453, 54419, 51902} in quick (one symbolic revision >= 50264 in thorough), compression off, instrumentation off; non-preemptive schedules only"),
  "C13": dict(
@@ -87,14 +87,14 @@ CHECKS = {
    note="bounds: strings 0..1 byte, one query; TLS and real dialing outside; clock is concrete (arrival instants enumerated); known finding: servers older than 54401 with a newer client (hello fields gated on the client's revision) - reported as KNOWN-FINDING by the separate harness VerifC13OldServer"),
  "C04": dict(
    level="model_checking",
-   text="Client.Do (select and insert-with-schema scenarios, the server answering only what it has received a reason to answer) is executed with a fault at every point: server stream cut after byte k (all k), client write failing after byte k (all k), a failing user callback, an exception as the first thing the server sends, unknown and unexpected packet codes - under five non-preemptive scheduling policies (sender first, receiver first, round robin, and the two run-to-block variants). When Do returns an error the real IsClosed/Ping/Do are used to assert: closed => further calls return ErrClosed with zero connection calls; open => the next Ping writes exactly its own byte (nothing encoded for the failed query is sent later) and succeeds. Exhausting the loop budget is reported as does-not-return.",
+   text="Client.Do (select and insert-with-schema scenarios, the server answering only what it has received a reason to answer) is executed with a fault at every point: server stream cut after byte k (all k), client write failing after byte k (all k), a failing user callback, an exception as the first thing the server sends (whole, or cut after any of its bytes), unknown and unexpected packet codes - under five non-preemptive scheduling policies (sender first, receiver first, round robin, and the two run-to-block variants). When Do returns an error the real IsClosed/Ping/Do are used to assert: closed => further calls return ErrClosed with zero connection calls; open => the next Ping writes exactly its own byte (nothing encoded for the failed query is sent later) and succeeds against a server that answers Pong after whatever it had already sent (a stream that was cut stays cut, a connection whose writes fail keeps failing). Exhausting the loop budget is reported as does-not-return.",
    ref="DESIGN.md §4 C04",
-   note="bounds: two scenarios, one block each, revision 54460, compression off; orderings that need a preemption between two non-blocking statements are outside (cooperative coroutines); native replays of schedule-dependent counterexamples are repeated with random delays at the harness' yield points"),
+   note="bounds: two scenarios, one block each, revision 54460, compression off; switch points are channel operations, close(ch), WaitGroup.Wait and every call on the connection - orderings that need a preemption between two other statements are outside (cooperative coroutines); native replays of schedule-dependent counterexamples are repeated with random delays at the harness' yield points"),
  "C10": dict(
    level="model_checking",
-   text="The caller's context is a harness type whose cancellation flips at the k-th observation (every Err/Done/Deadline call is a gate; k enumerated 0..10/24), for the select and insert scenarios, a responsive or a forever-silent server, and five scheduling policies; plus the same during Connect's hello exchange. When Do fails after the flip: errors.Is(err, context.Canceled), connection closed, client closed, the written bytes are a prefix of the reference stream ending at a flush boundary followed by at most one byte, which must be the Cancel code 3, and no goroutine of the call is left (engine-level leak check); a loop that never observes the cancellation is reported as does-not-return.",
+   text="The caller's context is a harness type whose cancellation flips at the k-th observation (every Err/Done/Deadline call is a gate; k enumerated 0..10/24), for the select and insert scenarios, a responsive or a forever-silent server, and five scheduling policies; plus the same during Connect's hello exchange. When Do fails after the flip: errors.Is(err, context.Canceled), connection closed, client closed, the written bytes are a prefix of the reference stream ending at a flush boundary followed by at most one byte, which must be the Cancel code 3, and no goroutine of the call is left (engine-level leak check); with and without a caller deadline one hour away, the call is back within 3 s of the cancellation on the harness' virtual clock (a blocked read returns at the deadline the client set, so a read deadline taken from the caller's deadline instead of ReadTimeout shows as lateness); a loop that never observes the cancellation is reported as does-not-return.",
    ref="DESIGN.md §4 C10",
-   note="bounds: gates <=10 (quick)/24; wall-clock promptness and goroutines blocked in a real kernel read are outside; deadlines are not modelled as expiring on their own (a deadline is a gate like any other); non-preemptive schedules only"),
+   note="bounds: gates <=10 (quick)/24; promptness is measured on the harness' virtual clock (time.Now is a model; a blocked Read advances it to the read deadline), real wall-clock time and goroutines blocked in a real kernel read are outside; a caller deadline that EXPIRES is modelled as a cancellation gate with context.Canceled only (DeadlineExceeded matching is not separately decided); non-preemptive schedules only"),
  "C11": dict(
    level="model_checking",
    text="chpool (Acquire, Release, Do/Ping through a handle, checkIdleConnsHealth, Close) is executed together with the REAL github.com/jackc/puddle/v2 pool and x/sync/semaphore, interpreted from their SSA with goroutines as cooperative coroutines, over connections dialed from a scripted server. Histories: acquire/release/release-again/re-acquire/stale release by a previous holder/third acquire with MaxConns 1..2; a client closed while held; lifetime exceeded at release; idle time exceeded at the health check; healthy idle connections; pool Close. Assertions: a released handle is inert (repeated and stale releases change nothing, never panic), a connection has one holder (a third acquire never returns the connection another handle holds), open connections <= MaxConns, closed/expired connections are destroyed and not reissued, everything dialed is closed after Close.",
